@@ -231,8 +231,21 @@ UC04Quick(u) == {x \in UC04(0) : x.inp[2].mo = {} \/ x.inp[1].mf = {}}
 UC01ClimNoObs(u) == {[inp |-> <<In112(TRUE, a, b), In112(FALSE, {}, d)>>, clim |-> ClimGen(f, m[1], m[2]), opt |-> NoOptions]
                : a \in SUBSET P112, b \in SUBSET P112, d \in SUBSET P112, f \in SUBSET P112,
                  m \in {<<"lin", "subtract">>, <<"small", "divide">>}}
+\* C15 in composition: -T on two inputs with DIFFERENT lead-time grids (one unsorted and lacking a lead time), missing cells, and a
+\* selection (-o / -t) applied afterwards: windows follow each file's own grid, selection and intersection come later
+L4 == <<LeadPool[1], LeadPool[2], LeadPool[3], LeadPool[4]>>
+T15In1 == [ts |-> Ta, ls |-> L4, ss |-> Sa, hasObs |-> TRUE, mo |-> {<<1, 2, 1>>}, mf |-> {}, bump |-> 0]
+T15In2 == [ts |-> Tb, ls |-> <<LeadPool[4], LeadPool[2], LeadPool[1]>>, ss |-> Sb, hasObs |-> TRUE, mo |-> {}, mf |-> {<<2, 1, 2>>}, bump |-> 0]
+T15In2NoObs == [T15In2 EXCEPT !.hasObs = FALSE]
+T15In3 == [T15In2 EXCEPT !.ls = <<LeadPool[4], LeadPool[2], LeadPool[1], LeadPool[3]>>]        \* the same lead times as input 1, in another order
+TMenu == {<<R(12), "sum", "leadtime">>, <<R(24), "sum", "leadtime">>, <<R(25), "mean", "leadtime">>, <<R(13), "max", "leadtime">>,
+          <<R(36), "range", "leadtime">>, <<R(7), "sum", "time">>, <<R(6), "min", "time">>}
+UC15T(u) == {[inp |-> i, clim |-> NoClimGen, opt |-> WithOpt(o, "T", t)]
+               : i \in {<<T15In1, T15In2>>, <<T15In1>>, <<T15In1, T15In2NoObs>>, <<T15In1, T15In3>>}, t \in TMenu,
+                 o \in {NoOptions, WithOpt(NoOptions, "o", {0, 36}), WithOpt(NoOptions, "o", {12, 36}), WithOpt(NoOptions, "t", {TimePool[2]})}}
 Universe(u) ==
   CASE Family = "C01Full"   -> UC01Full(0)
+    [] Family = "C15T"      -> UC15T(0)
     [] Family = "C01Quick"  -> UC01Quick(0)
     [] Family = "C01NoObs"  -> UC01NoObs(0) \cup UC01NoObs1(0)
     [] Family = "C01Three"  -> UC01Three(0)
@@ -290,7 +303,7 @@ InputJson(I) == [times |-> I.times, leads |-> I.leads, locs |-> I.locs, lat |-> 
 OptJson(O) == [given |-> SetToSeq(O.given), t |-> SortInts(O.t), d |-> SortInts(O.d), tod |-> SortInts(O.tod),
                o |-> SortInts(O.o), l |-> SortInts(O.l), lx |-> SortInts(O.lx), latrange |-> O.latrange,
                lonrange |-> O.lonrange, elevrange |-> O.elevrange,
-               obsrange |-> <<J(O.obsrange[1]), J(O.obsrange[2])>>]
+               obsrange |-> <<J(O.obsrange[1]), J(O.obsrange[2])>>, T |-> <<J(O.T[1]), O.T[2], O.T[3]>>]
 CaseList(X, r) ==
   LET cs == Cases(X, r)
       idxs == SortInts({X.pos[c] : c \in cs})
